@@ -107,3 +107,12 @@ __CPROVER_requires(__CPROVER_is_fresh(forward_fct, sizeof(*forward_fct)) && EV_E
 __CPROVER_assigns(g_fwd, g_exc)
 __CPROVER_ensures(g_fwd == (forward_fct->set ? 1 : 0))                                     /*@ob C09.exit-point-without-outgoing-connection-is-a-terminate-state */
 ;
+
+/* ---- get_state_by_id (C03): linear search over state_list; ids are list positions [A: compile time, see get_state_id above] ---- */
+stref_t get_state_by_id(fsm_t* self, int id)
+__CPROVER_requires(__CPROVER_is_fresh(self, sizeof(*self)) && 0 <= g_nstates && g_nstates <= 1000000)
+__CPROVER_requires(at_key(id, self->m_substate_list) != 0)                                       /* a state object has an address */
+__CPROVER_assigns()                                                                               /*@ob C03.introspection-assigns-nothing */
+__CPROVER_ensures((0 <= id && id < g_nstates) ==> __CPROVER_return_value == at_key(id, self->m_substate_list))   /*@ob C03.get_state_by_id-returns-the-state-object-numbered-id */
+__CPROVER_ensures(!(0 <= id && id < g_nstates) ==> __CPROVER_return_value == 0)                                   /*@ob C03.get_state_by_id-returns-null-for-an-id-that-no-state-has */
+;
